@@ -39,6 +39,16 @@ theorem C04_interpRow_root (ext : Ext) (o : TraceOpts) (t : Ty) (F : Fields) (v 
   rw [Fields.ofList_toList, interpDT_struct_md ext F false [] md]
   exact C04_interp_ser ext o t v _ false md hf hw hs hm
 
+/-- at ANY supported root: the type-directed exclusion is the driver's run-time exclusion against the schema `from_type`
+returns (`C04_inScopeU_row` for every root kind) -/
+theorem C04_inScopeU_row_root (o : TraceOpts) (t : Ty) (F : Fields) (v : Val) (fields : List Field)
+    (hf : fragE t = true) (hw : wt t v = true) (hroot : rootCols o t = some F) (hfields : fields = F.toList) :
+    inScopeU o t v = !noneAtUnionRow fields (ser t v) := by
+  obtain ⟨md, hm⟩ := rootCols_some hroot
+  subst hfields
+  rw [C04_inScopeU_iff o t v hf hw, hm]
+  simp [noneAtUnionRow, Fields.ofList_toList]
+
 theorem toList_ne_nil : ∀ (F : Fields), F ≠ .nil → F.toList ≠ []
   | .nil, h => absurd rfl h
   | .cons _ _, _ => by simp [Fields.toList]
